@@ -636,10 +636,18 @@ where
             // are summed together.
             // δy/δx = δy/δw * δw/δx
             // δy/δx = sum for all i parents of y ( δy/δw_i * δw_i/δx )
-            derivatives[operation.left_parent] = derivatives[operation.left_parent].clone()
-                + derivative.clone() * operation.left_derivative;
-            derivatives[operation.right_parent] = derivatives[operation.right_parent].clone()
-                + derivative * operation.right_derivative;
+            // Entries without a left and/or right parent point at themselves with a zero
+            // derivative (see append_nullary and append_unary). They are skipped rather than
+            // added as `derivative * zero`, because for an infinite derivative that product
+            // is NaN and would replace the infinite derivative of this entry.
+            if operation.left_parent != i {
+                derivatives[operation.left_parent] = derivatives[operation.left_parent].clone()
+                    + derivative.clone() * operation.left_derivative;
+            }
+            if operation.right_parent != i {
+                derivatives[operation.right_parent] = derivatives[operation.right_parent].clone()
+                    + derivative * operation.right_derivative;
+            }
         }
 
         Some(Derivatives { derivatives })
